@@ -117,7 +117,7 @@ func init() {
 			return []string{"mult:M1", "mult:M2", "mult:M3", "has_hole", "edge_through_pixel_corner", "vertex_on_pixel_border"}
 		},
 		MinNonTriv:  1000,
-		Assumptions: []string{"windows of at most 13 pixels and 25 vertices per ring", "validity and crossings decided on the tool's own 1e-10 integer coordinates", "panics are judged by C06"},
+		Assumptions: []string{"most cases are windows of at most 13 pixels with at most 25 vertices per ring; 1 in 40 is a structured input of 40-300 vertices (big), 1 in 8000 has thousands of vertices (huge, zipper); nest, lobes, saw and longflat are drawn like any other generator (see the kind:* and grid-class:* counters for what a run actually drew)", "validity and crossings decided on the tool's own 1e-10 integer coordinates", "panics are judged by C06"},
 		Technique:   "runtime monitor: exact crossing oracle over generated hostile polygons",
 	})
 
